@@ -194,6 +194,8 @@ def mistake_check(case):
         if l.time == trigger:
             markets_at_trigger.add(l.market_id)
         if (o.market_id, o.order_id) == first:
+            if id(o) not in probe:
+                continue  # the probe's before-order hook did not fire for this order (event dispatch is broken: C13's subject)
             mp = probe[id(o)]["mp"]
             want_price = mp * (1 + om["priceChangeRate"])
             msg = tick_violation(want_price, m.tick_size, l.price, om["priceChangeRate"] > 0.0) if l.price is not None else "no price"
@@ -217,7 +219,7 @@ def mistake_check(case):
             raise Violation("C14.mistake_replaces_only_the_first_target_order",
                             f"order {o.order_id} on market {m.name} at time {l.time} was returned as {snap} but accepted as buy={l.is_buy} kind={l.kind.name} "
                             f"volume={l.volume} ttl={l.ttl} price={l.price!r} (target {om['target']}, trigger {trigger}, enabled {om['enabled']})")
-    if first is not None and replaced != 1:
+    if first is not None and replaced != 1 and all(id(o) in probe for o, _, _ in A.returned_orders):
         raise Violation("C14.mistake_not_applied", "the first order on the target market at the trigger time was not replaced")
     nt = len(markets_at_trigger) >= 2
     classes = (["replaced"] if replaced else []) + (["multi_market_trigger"] if nt else []) + ([] if om["enabled"] else ["disabled"])
